@@ -75,12 +75,16 @@ def walk(fn, valuation: Dict[str, bool], norm: Callable[[ast.AST], str], max_ste
             val = None
             if isinstance(core, ast.Constant):
                 val = bool(core.value)          # `if False:` / `if 1:` need no hypothesis
-            for k in (txt, etxt):
+            rebound = any(isinstance(n_, ast.Name) and n_.id in env for n_ in ast.walk(core))
+            # an atom speaks about the function's inputs: once a name of the test has been re-bound on this path only the expanded text counts
+            for k in ((etxt,) if rebound else (txt, etxt)):
                 if val is None and k in valuation:
                     val = valuation[k]
                     break
+            if val is None and rebound:
+                val = _never_none(_Sub(env).visit(clone(core)))
             if val is None:
-                return ("unknown", f"test `{txt}` is not one of the atoms")
+                return ("unknown", f"test `{etxt if rebound else txt}` is not one of the atoms")
             val = (not val) if flip else val
             nxt = [m for m, lab in succ if lab == ("T" if val else "F")]
             if len(nxt) != 1:
@@ -89,7 +93,12 @@ def walk(fn, valuation: Dict[str, bool], norm: Callable[[ast.AST], str], max_ste
             continue
         if node.kind == "return":
             v = a.value if a.value is not None else ast.Constant(value=None)
-            return ("return", _fold_ifexp(_Sub(env).visit(clone(v)), valuation, norm))
+            r_ = _fold_ifexp(_Sub(env).visit(clone(v)), valuation, norm)
+            try:
+                r_._env, r_._raw = dict(env), v        # for callers that need the attribute stores made on the returned object
+            except Exception:
+                pass
+            return ("return", r_)
         if node.kind in ("raisestmt", "raise"):
             return ("raise", a)
         if node.kind == "iter":
@@ -115,8 +124,11 @@ def walk(fn, valuation: Dict[str, bool], norm: Callable[[ast.AST], str], max_ste
                 env[a.target.id] = ast.BinOp(left=clone(cur), op=a.op, right=_Sub(env).visit(clone(a.value)))
             elif isinstance(a, (ast.Expr, ast.Pass, ast.Assert)):
                 pass
+            elif isinstance(a, ast.Assign) and len(a.targets) == 1 and isinstance(a.targets[0], ast.Attribute) and isinstance(a.targets[0].value, ast.Name):
+                # attribute of an object held in a local: remembered under "local.attr" (what the returned object carries)
+                env[f"{a.targets[0].value.id}.{a.targets[0].attr}"] = _Sub(env).visit(clone(a.value))
             elif isinstance(a, ast.Assign):
-                pass          # stores into attributes / subscripts do not change what the locals denote
+                pass          # other stores into attributes / subscripts do not change what the locals denote
             else:
                 return ("unknown", f"statement `{type(a).__name__}` on the path")
         nxt = [m for m, lab in succ if lab != "exc"]
@@ -210,3 +222,12 @@ def walk_all(fn, valuation, norm, project=None, limit=64):
     if pending:
         outcomes.add(("unknown", "too many undetermined tests"))
     return outcomes
+
+
+def _never_none(e):
+    """`<call or literal> is None` is False, `... is not None` is True (results of constructors / numpy calls are objects)"""
+    if isinstance(e, ast.Compare) and len(e.ops) == 1 and isinstance(e.ops[0], (ast.Is, ast.IsNot)) \
+            and isinstance(e.comparators[0], ast.Constant) and e.comparators[0].value is None \
+            and isinstance(e.left, (ast.Call, ast.List, ast.Tuple, ast.Dict, ast.BinOp, ast.ListComp, ast.DictComp)):
+        return isinstance(e.ops[0], ast.IsNot)
+    return None
